@@ -138,7 +138,7 @@ Contract(RB, 'RobotsTxtChecker.fetch_robots_txt', dict(SC, request=TObj('HTTPReq
              ('only-200-gives-rules', 'implies(not sess.g_failed and sess.g_response.status_code != 200, %s[%s].text == "")' % (POOL, ORIG)), ('other-origins-untouched', OTHERS), ('counted', 'self.g_fetches == old(self.g_fetches) + 1')],
     raises={'ServerError': [('postponed-nothing-stored', '%s == old(%s)' % (POOL, POOL))], 'NetworkError': [('nothing-stored', '%s == old(%s)' % (POOL, POOL))],
             'SSLVerificationError': [('nothing-stored', '%s == old(%s)' % (POOL, POOL))]},
-    replay='robots:replay_fetch')
+    replay='robots:replay_fetch', escape_props={'C20', 'C09'})
 CONTRACTS.pop('RobotsTxtChecker.can_fetch', None)          # the assumed stand-in of specs/rule.py is replaced by the verified contract
 # the abstract verdict used by specs/rule.py, now defined: the matcher's answer for this request's origin, agent and URL
 SPECFUNS['robots_allowed'] = lambda ex, st, chk, req: VBool(ex.spec_eval(VERDICT, st, {'self': chk, 'request': req}))
@@ -149,7 +149,7 @@ Contract(RB, 'RobotsTxtChecker.can_fetch', dict(SC, request=TObj('HTTPRequest'),
              ('fetched-only-on-miss', 'self.g_fetches == old(self.g_fetches) + (0 if %s in old(%s) else 1)' % (ORIG, POOL)),
              ('not-replaced-once-obtained', 'implies(%s in old(%s), %s == old(%s))' % (ORIG, POOL, POOL, POOL))],
     raises={'ServerError': [('postponed-nothing-stored', '%s == old(%s)' % (POOL, POOL))], 'NetworkError': [('nothing-stored', '%s == old(%s)' % (POOL, POOL))],
-            'SSLVerificationError': [('nothing-stored', '%s == old(%s)' % (POOL, POOL))]})
+            'SSLVerificationError': [('nothing-stored', '%s == old(%s)' % (POOL, POOL))]}, escape_props={'C20', 'C09'})
 # the callers in specs/rule.py now see the verified contract: give them its precondition and frame
 for _n in ('FetchRule.consult_robots_txt', 'FetchRule.check_initial_web_request'):
     _c = CONTRACTS[_n]
